@@ -39,19 +39,17 @@ def rel2abs (rel : Path) (base : Path) : Path :=
     | none => []
   cutComma (dir ++ rel)
 
-/-- The pointers `enabled_by` takes in
+/-- The entries of a metadata value: the pointers `enabled_by` takes in
     `for(enabled_by = meta[k]; enabled_by; enabled_by = strchr(enabled_by+1, ','))`
     after `if(*enabled_by==',') ++enabled_by;` — each as the rest of the string from there.
-    When the pointer stands on the terminator (value ends in ',', as `rDepends` writes it)
-    `strchr(enabled_by+1, …)` continues in the bytes *behind* the value, i.e. in the next
-    metadata key (or the block's final NUL); no key that the macros emit contains a
-    comma, so the search ends there: modelled as end of iteration. -/
+    When the pointer then stands on the terminator (the value ends in ',', as `rDepends`
+    writes it) the loop ends (`if(!*enabled_by) break;`, fixes/C13-scan-deps-empty-entry). -/
 def depPtrs : Nat → Path → List Path
   | 0, _ => []
   | fuel + 1, p =>
     let q := match p with | ',' :: r => r | _ => p          -- if(*enabled_by==',') ++enabled_by
     match q with
-    | [] => [q]                                             -- strchr(terminator+1, ',') : see above
+    | [] => []                                              -- if(!*enabled_by) break
     | _ :: r =>
       -- strchr(enabled_by+1, ',')
       let nxt := r.dropWhile (· ≠ ',')
